@@ -22,7 +22,7 @@ debug profile: `none` = a panic).  A set of jobs (`Set256`) is a `Nat` bit mask;
   the distance; from `Virtual P`: the least `distances[i][j] ≠ -1` over `i ∈ P` (none: `unwrap` of `None`, a panic);
 * `relax.rs`: `merge` = `(Virtual (∪ previous), ∩ must, (∪ maybe ∪ ∪ must) \ ∩ must  — None when empty —, max depth)`; no
   state at all: `(Virtual ∅, the full set of 256 jobs, None, 0)`; `relax` = the cost, unchanged;
-  `fast_upper_bound`: see `rub?` (cheapest incoming edge of every job still to do, from a job still to do; the
+  `fast_upper_bound`: see `rubOld?` (cheapest incoming edge of every job still to do, from a job still to do; the
   `complete_tour - 1` cheapest of them, the mandatory ones first unless the largest mandatory one exceeds the FIRST optional
   one; plus the least distance from the current position);
 * `heuristics.rs`: `SopRanking::compare` compares the depths; `SopWidth::max_width = nb_vars * (depth + 1) * factor` (the depth
@@ -243,9 +243,13 @@ def rubWith? (fin : Nat → Nat → Int → List Int → List Int → Option Int
   fin ct nMust dist2 toMust toMaybe
 
 /-- `fast_upper_bound` (the code's) -/
-def rub? (s : St) : Option Int := rubWith? T rubFinal s
+def rubOld? (s : St) : Option Int := rubWith? T rubFinal s
 /-- the corrected bound (`rubFinalFixed`): NOT the code's -/
 def rubFixed? (s : St) : Option Int := rubWith? T rubFinalFixed s
+/-- `fast_upper_bound` of the REPAIRED code (`fix:` commit of /repo, finding D19): the mixed branch keeps the lesser of the two
+    edge selections; `rubOld?` above is the bound as shipped before (it compared the largest mandatory edge with the FIRST
+    optional edge; witness `SopModel.rub_refutes_RubAdmissibleStmt`) -/
+def rub? (s : St) : Option Int := rubFixed? T s
 
 def relaxation : Relax St :=
   { merge := merge
@@ -318,11 +322,11 @@ def rubOkAt (s : St) (r : Int) : Bool := decide (bestRemConc T s ≤ some r)
     `must_schedule` holds) — is NOT what the bound computes; where it fails is only counted (`rub-vs-relaxed-dp`) -/
 def rubOkRelaxedDpAt (s : St) (r : Int) : Bool := decide (bestRem T s ≤ some r)
 /-- a violation of `rubOkAt` by the bound `r` is of the class `sop-rub-optional-edge` when `r` is exactly what the modelled
-    formula `rub?` gives (so the only possible cause is the one line in which `rub?` and `rubFixed?` differ: the choice between
+    formula `rubOld?` gives (so the only possible cause is the one line in which `rubOld?` and `rubFixed?` differ: the choice between
     the mandatory and the optional edges) and the corrected bound `rubFixed?` is admissible at `s`; a bound that is NOT the
     modelled one (a changed `fast_upper_bound`) is never excused -/
 def rubOptionalEdgeAt (s : St) (r : Int) : Bool :=
-  rub? T s == some r &&
+  rubOld? T s == some r &&
   (match rubFixed? T s with
    | some rf => rubOkAt T s rf
    | none => false)
